@@ -355,6 +355,10 @@ class ClassBuilder:
       top = (1 << w) - 1
       small = ["lit", d(st.integers(0, min(top, 3)))]
       big = ["lit", d(st.sampled_from([top, top + 1, top + d(st.integers(1, 300)), d(st.integers(0, top))]))]
+      if d(st.booleans()):
+        # one bare-int branch and one explicitly sized branch whose width may differ from what the context asks for
+        w2 = max(1, w + d(st.sampled_from([-3, -2, -1, 0, 0, 1, 2])))
+        big = self.sig_leaf(w2, env)
       a, b = (small, big) if d(st.booleans()) else (big, small)
       return ["ifexp", self.expr(1, env, depth + 1), a, b]
     if self.opts["sloppy"] and d(st.integers(0, 5)) == 0:
